@@ -1,26 +1,29 @@
 (* Correspondence cases for C27: one case = one operation sequence run on a
    real Badger store, with what the implementation did after every operation.
-   Keys and transaction hashes are referred to by index into the two tables of
-   the case (their real 32-byte values, so that the key order of the store is
-   the model's order). *)
+   Keys, transaction hashes and timestamps are referred to by index into the
+   three tables of the case.  Keys carry their real 32-byte values (their order
+   is the key order of the store); transaction hashes are renamed injectively
+   to 1,2,.. by the harness (the model only compares them for equality). *)
 From Coq Require Import List ZArith NArith Bool.
 Require Import Mixin.Base.Res Mixin.Model.NodeState.
 Import ListNotations.
-Open Scope N_scope.
+Local Open Scope N_scope.
 
-(* (kind 0..3, signer index, payee index, tx index, timestamp, genesis) *)
-Definition opx := (N * N * N * N * N * bool)%type.
-(* (signer index, payee index, state 0..3, tx index, timestamp) *)
-Definition recx := (N * N * N * N * N)%type.
-(* decision 0 = recorded, 1 = error, 2 = panic; then ReadAllNodes(max,false) as
-   (signer index, state, timestamp) in (timestamp, signer) order (None: not
-   observable, the genesis nodes are loaded in one store transaction) *)
-Definition stepobs := (N * option (res (list (N * N * N))))%type.
+(* Numbers inside the constructors below are indices into the three tables of
+   the case (keys, transaction hashes, timestamps), so that case terms stay small. *)
+Inductive opx := O (kind signer payee tx ts : N) (genesis : bool).   (* kind 0..3 *)
+Inductive recx := R (signer payee state tx ts : N).                  (* state 0..3 *)
+Inductive briefx := B (signer state ts : N).
+(* decision 0 = recorded, 1 = error, 2 = panic; then ReadAllNodes(max,false) in
+   (timestamp, signer) order (None: not observed - the genesis nodes are loaded
+   in one store transaction, and a refused operation leaves the store as it was) *)
+Inductive stepobs := S (decision : N) (latest : option (res (list briefx))).
+Inductive readx := Q (threshold : N) (with_state : bool) (obs : res (list recx)).
 
 Inductive case :=
-| CHist (keys txs : list N) (ops : list opx) (obs : list stepobs)
-        (final : res (list recx))                      (* ReadAllNodes(max,true) at the end *)
-        (reads : list (N * bool * res (list recx))).   (* further reads (threshold, withState) at the end *)
+| CHist (keys txs tss : list N) (ops : list opx) (obs : list stepobs)
+        (final : res (list recx))        (* ReadAllNodes(max,true) at the end *)
+        (reads : list readx).            (* further reads at the end *)
 
 Definition tab (t : list N) (i : N) : N := nth (N.to_nat i) t 0.
 
@@ -29,18 +32,18 @@ Definition kind_of (k : N) : okind :=
 Definition state_code (s : nstate) : N :=
   match s with Pledging => 0 | Accepted => 1 | Removed => 2 | Cancelled => 3 end.
 
-Definition op_of (keys txs : list N) (o : opx) : op :=
-  let '(k, s, p, t, ts, g) := o in
-  mk_op (kind_of k) (tab keys s) (tab keys p) (tab txs t) ts g.
+Definition op_of (keys txs tss : list N) (o : opx) : op :=
+  let '(O k s p t ts g) := o in
+  mk_op (kind_of k) (tab keys s) (tab keys p) (tab txs t) (tab tss ts) g.
 
-Definition rec_matches (keys txs : list N) (r : nrec) (x : recx) : bool :=
-  let '(s, p, st, t, ts) := x in
+Definition rec_matches (keys txs tss : list N) (r : nrec) (x : recx) : bool :=
+  let '(R s p st t ts) := x in
   (n_signer r =? tab keys s) && (n_payee r =? tab keys p) && (state_code (n_state r) =? st)
-  && (n_tx r =? tab txs t) && (n_ts r =? ts).
+  && (n_tx r =? tab txs t) && (n_ts r =? tab tss ts).
 
-Definition brief_matches (keys : list N) (r : nrec) (x : N * N * N) : bool :=
-  let '(s, st, ts) := x in
-  (n_signer r =? tab keys s) && (state_code (n_state r) =? st) && (n_ts r =? ts).
+Definition brief_matches (keys tss : list N) (r : nrec) (x : briefx) : bool :=
+  let '(B s st ts) := x in
+  (n_signer r =? tab keys s) && (state_code (n_state r) =? st) && (n_ts r =? tab tss ts).
 
 Fixpoint all2 {A B} (f : A -> B -> bool) (a : list A) (b : list B) : bool :=
   match a, b with
@@ -62,30 +65,30 @@ Definition decision_code {A} (r : res A) : N :=
 
 Definition max64 : N := 2 ^ 64 - 1.
 
-Fixpoint replay (keys txs : list N) (h : list nrec) (ops : list opx) (obs : list stepobs) : option (list nrec) :=
+Fixpoint replay (keys txs tss : list N) (h : list nrec) (ops : list opx) (obs : list stepobs) : option (list nrec) :=
   match ops, obs with
   | [], [] => Some h
-  | o :: ops', (d, lat) :: obs' =>
-      let r := apply h (op_of keys txs o) in
+  | o :: ops', S d lat :: obs' =>
+      let r := apply h (op_of keys txs tss o) in
       let h' := match r with Ok x => x | _ => h end in
       if (decision_code r =? d)
          && match lat with
             | None => true
-            | Some l => res_list_matches (brief_matches keys) (read_all_nodes h' max64 false) l
+            | Some l => res_list_matches (brief_matches keys tss) (read_all_nodes h' max64 false) l
             end
-      then replay keys txs h' ops' obs'
+      then replay keys txs tss h' ops' obs'
       else None
   | _, _ => None
   end.
 
 Definition check (c : case) : bool :=
   match c with
-  | CHist keys txs ops obs final reads =>
-      match replay keys txs [] ops obs with
+  | CHist keys txs tss ops obs final reads =>
+      match replay keys txs tss [] ops obs with
       | None => false
       | Some h =>
-          res_list_matches (rec_matches keys txs) (read_all_nodes h max64 true) final
-          && forallb (fun q => let '(th, ws, o) := q in
-                               res_list_matches (rec_matches keys txs) (read_all_nodes h th ws) o) reads
+          res_list_matches (rec_matches keys txs tss) (read_all_nodes h max64 true) final
+          && forallb (fun q => let '(Q th ws o) := q in
+                               res_list_matches (rec_matches keys txs tss) (read_all_nodes h th ws) o) reads
       end
   end.
